@@ -57,6 +57,8 @@ def classify(f):
         reasons.append("step_unbounded")
     if not ev["fedvalok"]:
         reasons.append("wrong_statistic_value")
+    if not ev.get("mmok", True):
+        reasons.append("estimate_not_from_the_window_draws")
     if not reasons:
         reasons.append("schedule_mismatch:%s" % ev.get("branch"))
     return "+".join(reasons)
